@@ -7,10 +7,14 @@ import (
 	"os"
 	"os/exec"
 	"path/filepath"
+	"regexp"
 	"sort"
 	"strings"
 
+	"google.golang.org/protobuf/compiler/protogen"
+	"google.golang.org/protobuf/internal/strs"
 	"google.golang.org/protobuf/proto"
+	"google.golang.org/protobuf/reflect/protodesc"
 	"google.golang.org/protobuf/types/descriptorpb"
 	"google.golang.org/protobuf/types/pluginpb"
 	"google.golang.org/protobuf/verif/c41rt"
@@ -20,8 +24,8 @@ import (
 
 func init() {
 	core.Register(&core.Check{
-		ID: "C41",
-		Rule: "cases: PRNG-generated valid multi-file schemas (proto2/proto3/editions; nested types, maps, groups/DELIMITED, real and synthetic oneofs, extension ranges and extensions, enums with aliases, services, defaults, lazy fields, editions feature overrides, hostile names: Go keywords, predeclared identifiers and generated method stems used as exact field names; one message with 70 required fields) pushed through the real protoc-gen-go binary at API level open, hybrid or opaque (by schema index), written into a scratch Go module: (1) gofmt -l reports nothing, (2) go build of all generated packages and of a program linking them succeeds, (3) that program checks, for every file, that the registered descriptor equals the input FileDescriptorProto, and for every message type that PRNG contents marshal to the same deterministic bytes as dynamicpb, have the same reflection snapshot, Size, JSON and text, round-trip lazily and eagerly, and that mutated wire inputs get the same verdict and content as dynamicpb; distinct = distinct generated files; non-trivial = schema with at least one message",
+		ID:     "C41",
+		Rule:   "cases: PRNG-generated valid multi-file schemas (proto2/proto3/editions; nested types, maps, groups/DELIMITED, real and synthetic oneofs, extension ranges and extensions, enums with aliases, services, defaults, lazy fields, editions feature overrides, hostile names: Go keywords, predeclared identifiers and generated method stems used as exact field names; one message with 70 required fields; plus accessor-name clash schemas: a field foo/bar in every presence style of the syntax (optional, required, implicit, proto3 optional, explicit, LEGACY_REQUIRED, repeated, map, message, DELIMITED, oneof member) next to has_/clear_/set_/get_/which_ siblings of its name and of the oneof's name, each schema its own package, and one fixed three-field pattern bar/get_bar/bar_ at each level) pushed through the real protoc-gen-go binary at API level open, hybrid or opaque (by schema index), written into a scratch Go module: (1) gofmt -l reports nothing, (2) go build of all generated packages and of a program linking them succeeds, (3) that program checks, for every file, that the registered descriptor equals the input FileDescriptorProto, and for every message type that PRNG contents marshal to the same deterministic bytes as dynamicpb, have the same reflection snapshot, Size, JSON and text, round-trip lazily and eagerly, and that mutated wire inputs get the same verdict and content as dynamicpb; distinct = distinct generated files; non-trivial = schema with at least one message",
 		Assume: []string{"the Go toolchain (gofmt, go build) as judge of formatting and compilation", "dynamicpb as the reference implementation of a descriptor (C08)", "harness/c41rt (comparison program linked with the generated code)"},
 		Batches: func(tier string) []core.Batch {
 			n := 1
@@ -35,7 +39,7 @@ func init() {
 			return bs
 		},
 		Gates: func(tier string) map[string]int64 {
-			return map[string]int64{"schemas": 12, "generated_go_files": 20, "packages": 20, "builds_ok": 1, "rt:files": 20, "rt:message_types": 60, "rt:cases": 300, "rt:descriptor_equal": 20, "rt:api:open": 5, "rt:api:hybrid": 5, "rt:api:opaque": 5, "rt:mutated_inputs": 300, "rt:many_required_messages": 1, "level:open": 3, "level:hybrid": 3, "level:opaque": 3}
+			return map[string]int64{"schemas": 12, "generated_go_files": 20, "packages": 20, "builds_ok": 1, "rt:files": 20, "rt:message_types": 60, "rt:cases": 300, "rt:descriptor_equal": 20, "rt:api:open": 5, "rt:api:hybrid": 5, "rt:api:opaque": 5, "rt:mutated_inputs": 300, "rt:many_required_messages": 1, "level:open": 3, "level:hybrid": 3, "level:opaque": 3, "clash_schemas": 12, "clash_level:open": 4, "clash_level:hybrid": 4, "clash_level:opaque": 4, "clash_packages_compiled": 12}
 		},
 		Run: runC41,
 	})
@@ -67,6 +71,7 @@ func runC41(c *core.Ctx, b core.Batch) {
 	set := &descriptorpb.FileDescriptorSet{}
 	var imports []string
 	levels := []string{"API_OPEN", "API_HYBRID", "API_OPAQUE"}
+	var clashPkgs []clashPkg
 	for i := 0; i < nschemas; i++ {
 		r := c.Rng(uint64(b.N)<<20 | uint64(i))
 		o := gen.SchemaOpts{Prefix: fmt.Sprintf("c41b%ds%d", b.N, i), Codegen: true, Features: i%2 == 0, HostileNames: i%3 != 2, NumFiles: 1 + i%3, NoServices: false}
@@ -146,6 +151,96 @@ func runC41(c *core.Ctx, b core.Batch) {
 			c.Sample(map[string]any{"schema": o.Prefix, "api_level": level, "generated_files": fn})
 		}
 	}
+	// accessor-name clash schemas: a field next to has_/clear_/set_/get_/which_ siblings
+	// of its own name, for every way a field can have presence, at every API level
+	nclash := c.Scale(18, 36)
+	for i := 0; i < nclash+3; i++ {
+		r := c.Rng(uint64(b.N)<<20 | 0x80000 | uint64(i))
+		level := levels[i%3]
+		syn := []string{"proto2", "proto3", "editions"}[(i/3)%3]
+		prefix := fmt.Sprintf("c41b%dclash%d", b.N, i)
+		fdp := c41ClashFile(r, prefix, syn, level)
+		if i >= nclash {
+			// the fixed three-field pattern, alone in its package, at each level
+			syn = "proto2"
+			fdp = c41PatternFile(prefix)
+		}
+		if _, err := protodesc.NewFile(fdp, nil); err != nil {
+			c.Count("clash_schema_rejected_by_protodesc")
+			continue
+		}
+		c.Count("clash_schemas")
+		c.Count("clash_level:" + strings.ToLower(strings.TrimPrefix(level, "API_")))
+		req := &pluginpb.CodeGeneratorRequest{FileToGenerate: []string{fdp.GetName()}, ProtoFile: []*descriptorpb.FileDescriptorProto{fdp}, Parameter: proto.String("default_api_level=" + level)}
+		rb, _ := proto.MarshalOptions{Deterministic: true}.Marshal(req)
+		c.Eval()
+		c.Log("C41 clash schema %s level=%s syntax=%s", prefix, level, syn)
+		detail := map[string]any{"schema": prefix, "api_level": level, "request": core.Hex(rb), "proto_text": clip(fdp.String(), 6000)}
+		out, err := runPlugin(plugin, rb, 4)
+		if err != nil {
+			detail["err"] = errStr(err)
+			c.Violation("codegen:plugin-failed-on-valid-schema:"+level, detail)
+			continue
+		}
+		files, perr, e := respFiles(out)
+		if e != nil || perr != "" {
+			detail["plugin_error"] = perr
+			c.Violation("codegen:plugin-reports-error-on-valid-schema:"+level, detail)
+			continue
+		}
+		// each clash package is compiled alone first, so that a clash is attributed to its schema
+		var dsts []string
+		pk := ""
+		for name, content := range files {
+			dst := filepath.Join(mod, strings.TrimPrefix(name, "verifgen/"))
+			os.MkdirAll(filepath.Dir(dst), 0o755)
+			os.WriteFile(dst, []byte(content), 0o644)
+			dsts = append(dsts, dst)
+			pk = filepath.Dir(name)
+			c.Count("generated_go_files")
+			c.DistinctBytes([]byte(content))
+		}
+		if pk == "" {
+			continue
+		}
+		clashPkgs = append(clashPkgs, clashPkg{pk, level, syn, detail, dsts, fdp})
+	}
+	if len(clashPkgs) > 0 {
+		args := []string{"build"}
+		for _, cp := range clashPkgs {
+			args = append(args, "./"+strings.TrimPrefix(cp.pkg, "verifgen/"))
+		}
+		cb := exec.Command("go", args...)
+		cb.Dir = mod
+		cb.Env = goEnv()
+		out, err := cb.CombinedOutput()
+		for _, cp := range clashPkgs {
+			rel := strings.TrimPrefix(cp.pkg, "verifgen/")
+			if err != nil && strings.Contains(string(out), rel+"/") {
+				var lines []string
+				for _, l := range strings.Split(string(out), "\n") {
+					if strings.Contains(l, rel+"/") {
+						lines = append(lines, l)
+					}
+				}
+				cp.detail["compiler_output"] = clip(strings.Join(lines, "\n"), 3000)
+				class := c41ClashClass(cp.file, cp.level, lines)
+				if class == "" {
+					class = c41ErrClass(strings.Join(lines, "\n"))
+				}
+				c.Violation("codegen:accessor-name-clash-does-not-compile:"+cp.level+":"+class, cp.detail)
+				// keep the broken package out of the program linking everything
+				for _, d := range cp.dsts {
+					os.Remove(d)
+				}
+				continue
+			}
+			c.Count("clash_packages_compiled")
+			imports = append(imports, cp.pkg)
+			c.Count("packages")
+			set.File = append(set.File, cp.file)
+		}
+	}
 	if len(imports) == 0 {
 		return
 	}
@@ -212,6 +307,205 @@ func runC41(c *core.Ctx, b core.Batch) {
 	}
 	os.RemoveAll(mod)
 	os.Remove(filepath.Join(c.Dir, "rtprog"))
+}
+
+type clashPkg struct {
+	pkg, level, syn string
+	detail          map[string]any
+	dsts            []string
+	file            *descriptorpb.FileDescriptorProto
+}
+
+// c41PatternFile: a field, a get_ sibling (which the struct-field naming renames
+// with a trailing underscore) and a field with a trailing underscore.
+func c41PatternFile(prefix string) *descriptorpb.FileDescriptorProto {
+	opt := descriptorpb.FieldDescriptorProto_LABEL_OPTIONAL.Enum()
+	return &descriptorpb.FileDescriptorProto{Name: proto.String(prefix + "/clash.proto"), Package: proto.String(prefix), Syntax: proto.String("proto2"),
+		Options: &descriptorpb.FileOptions{GoPackage: proto.String("verifgen/" + prefix + "/f0")},
+		MessageType: []*descriptorpb.DescriptorProto{{Name: proto.String("P"), Field: []*descriptorpb.FieldDescriptorProto{
+			{Name: proto.String("bar"), Number: proto.Int32(1), Label: opt, Type: descriptorpb.FieldDescriptorProto_TYPE_INT32.Enum(), JsonName: proto.String("bar")},
+			{Name: proto.String("get_bar"), Number: proto.Int32(2), Label: opt, Type: descriptorpb.FieldDescriptorProto_TYPE_STRING.Enum(), JsonName: proto.String("getBar")},
+			{Name: proto.String("bar_"), Number: proto.Int32(3), Label: opt, Type: descriptorpb.FieldDescriptorProto_TYPE_BOOL.Enum(), JsonName: proto.String("barU")},
+		}}}}
+}
+
+var reSameName = regexp.MustCompile(`field and method with the same name (\w+)`)
+
+// c41ClashClass names the cause of a compile failure when every "field and
+// method with the same name N" of the package is of one recognised kind:
+// N is the struct-field name of a field that the struct-field naming scheme
+// renamed (GoName != CamelCase(name)) and at the same time <Op>+CamelCase of
+// another field. Anything else returns "" (the raw compiler message is used).
+func c41ClashClass(fdp *descriptorpb.FileDescriptorProto, level string, lines []string) string {
+	names := map[string]bool{}
+	for _, l := range lines {
+		if m := reSameName.FindStringSubmatch(l); m != nil {
+			names[m[1]] = true
+		}
+	}
+	if len(names) == 0 {
+		return ""
+	}
+	req := &pluginpb.CodeGeneratorRequest{FileToGenerate: []string{fdp.GetName()}, ProtoFile: []*descriptorpb.FileDescriptorProto{fdp}, Parameter: proto.String("default_api_level=" + level)}
+	var plugin *protogen.Plugin
+	var err error
+	if p, _, _ := core.Try(func() { plugin, err = protogen.Options{}.New(req) }); p || err != nil {
+		return ""
+	}
+	ops := map[string]bool{}
+	for n := range names {
+		found := ""
+		var walk func(ms []*protogen.Message)
+		walk = func(ms []*protogen.Message) {
+			for _, m := range ms {
+				renamed := false
+				for _, f := range m.Fields {
+					if f.GoName == n && strs.GoCamelCase(string(f.Desc.Name())) != n {
+						renamed = true
+					}
+				}
+				if renamed {
+					for _, f := range m.Fields {
+						for _, op := range []string{"Get", "Set", "Has", "Clear"} {
+							if op+strs.GoCamelCase(string(f.Desc.Name())) == n {
+								found = op
+							}
+						}
+					}
+				}
+				walk(m.Messages)
+			}
+		}
+		for _, f := range plugin.Files {
+			walk(f.Messages)
+		}
+		if found == "" {
+			return ""
+		}
+		ops[found] = true
+	}
+	var ol []string
+	for o := range ops {
+		ol = append(ol, o)
+	}
+	sort.Strings(ol)
+	return "accessor-" + strings.Join(ol, "+") + "-equals-struct-field-renamed-by-old-scheme"
+}
+
+// c41ClashFile: messages in which a field with presence (by every mechanism the
+// syntax offers) sits next to fields named like its generated accessors.
+func c41ClashFile(r *core.Rand, prefix, syn, level string) *descriptorpb.FileDescriptorProto {
+	fdp := &descriptorpb.FileDescriptorProto{Name: proto.String(prefix + "/clash.proto"), Package: proto.String(prefix), Syntax: proto.String(syn),
+		Options: &descriptorpb.FileOptions{GoPackage: proto.String("verifgen/" + prefix + "/f0")}}
+	if syn == "editions" {
+		fdp.Syntax = proto.String("editions")
+		fdp.Edition = descriptorpb.Edition_EDITION_2023.Enum()
+	}
+	fdp.MessageType = append(fdp.MessageType, &descriptorpb.DescriptorProto{Name: proto.String("Sub"), Field: []*descriptorpb.FieldDescriptorProto{{Name: proto.String("v"), Number: proto.Int32(1), Label: descriptorpb.FieldDescriptorProto_LABEL_OPTIONAL.Enum(), Type: descriptorpb.FieldDescriptorProto_TYPE_INT32.Enum(), JsonName: proto.String("v")}}})
+	styles := map[string][]string{
+		"proto2":   {"optional", "required", "repeated", "message", "oneof", "oneof-message", "map"},
+		"proto3":   {"implicit", "proto3-optional", "repeated", "message", "oneof", "oneof-message", "map"},
+		"editions": {"explicit", "implicit", "legacy-required", "repeated", "message", "delimited", "oneof", "oneof-message", "map"},
+	}[syn]
+	scalar := []descriptorpb.FieldDescriptorProto_Type{descriptorpb.FieldDescriptorProto_TYPE_INT32, descriptorpb.FieldDescriptorProto_TYPE_STRING, descriptorpb.FieldDescriptorProto_TYPE_BYTES, descriptorpb.FieldDescriptorProto_TYPE_BOOL, descriptorpb.FieldDescriptorProto_TYPE_DOUBLE}
+	nmsg := 8
+	for mi := 0; mi < nmsg; mi++ {
+		m := &descriptorpb.DescriptorProto{Name: proto.String(fmt.Sprintf("M%d", mi))}
+		num := int32(1)
+		var synth []*descriptorpb.FieldDescriptorProto
+		hasOneof := false
+		add := func(name, style string) {
+			f := &descriptorpb.FieldDescriptorProto{Name: proto.String(name), Number: proto.Int32(num), Label: descriptorpb.FieldDescriptorProto_LABEL_OPTIONAL.Enum(), Type: scalar[r.Intn(len(scalar))].Enum(), JsonName: proto.String(gen.JSONCamel(name))}
+			num++
+			sub := func() {
+				f.Type = descriptorpb.FieldDescriptorProto_TYPE_MESSAGE.Enum()
+				f.TypeName = proto.String("." + prefix + ".Sub")
+			}
+			switch style {
+			case "required":
+				f.Label = descriptorpb.FieldDescriptorProto_LABEL_REQUIRED.Enum()
+			case "repeated":
+				f.Label = descriptorpb.FieldDescriptorProto_LABEL_REPEATED.Enum()
+			case "message":
+				sub()
+			case "delimited":
+				sub()
+				f.Options = &descriptorpb.FieldOptions{Features: &descriptorpb.FeatureSet{MessageEncoding: descriptorpb.FeatureSet_DELIMITED.Enum()}}
+			case "oneof", "oneof-message":
+				if !hasOneof {
+					hasOneof = true
+					m.OneofDecl = append([]*descriptorpb.OneofDescriptorProto{{Name: proto.String("oo")}}, m.OneofDecl...)
+					for _, sf := range synth {
+						sf.OneofIndex = proto.Int32(sf.GetOneofIndex() + 1)
+					}
+				}
+				f.OneofIndex = proto.Int32(0)
+				if style == "oneof-message" {
+					sub()
+				}
+			case "proto3-optional":
+				f.Proto3Optional = proto.Bool(true)
+				m.OneofDecl = append(m.OneofDecl, &descriptorpb.OneofDescriptorProto{Name: proto.String("_" + name)})
+				f.OneofIndex = proto.Int32(int32(len(m.OneofDecl) - 1))
+				synth = append(synth, f)
+			case "implicit":
+				if syn == "editions" {
+					f.Options = &descriptorpb.FieldOptions{Features: &descriptorpb.FeatureSet{FieldPresence: descriptorpb.FeatureSet_IMPLICIT.Enum()}}
+				}
+			case "legacy-required":
+				f.Options = &descriptorpb.FieldOptions{Features: &descriptorpb.FeatureSet{FieldPresence: descriptorpb.FeatureSet_LEGACY_REQUIRED.Enum()}}
+			case "map":
+				en := gen.JSONCamel(name)
+				en = strings.ToUpper(en[:1]) + en[1:] + "Entry"
+				m.NestedType = append(m.NestedType, &descriptorpb.DescriptorProto{Name: proto.String(en), Options: &descriptorpb.MessageOptions{MapEntry: proto.Bool(true)}, Field: []*descriptorpb.FieldDescriptorProto{
+					{Name: proto.String("key"), Number: proto.Int32(1), Label: descriptorpb.FieldDescriptorProto_LABEL_OPTIONAL.Enum(), Type: descriptorpb.FieldDescriptorProto_TYPE_STRING.Enum(), JsonName: proto.String("key")},
+					{Name: proto.String("value"), Number: proto.Int32(2), Label: descriptorpb.FieldDescriptorProto_LABEL_OPTIONAL.Enum(), Type: descriptorpb.FieldDescriptorProto_TYPE_INT32.Enum(), JsonName: proto.String("value")}}})
+				f.Label = descriptorpb.FieldDescriptorProto_LABEL_REPEATED.Enum()
+				f.Type = descriptorpb.FieldDescriptorProto_TYPE_MESSAGE.Enum()
+				f.TypeName = proto.String("." + prefix + "." + m.GetName() + "." + en)
+			}
+			m.Field = append(m.Field, f)
+		}
+		// the oneof "oo" gets its own siblings in some messages (get_oo next to a
+		// oneof oo in the open API is the recorded C42 finding and is left to C42)
+		plain := []string{"optional", "implicit", "explicit"}
+		plainStyle := func() string {
+			for _, st := range styles {
+				for _, p := range plain {
+					if st == p {
+						return st
+					}
+				}
+			}
+			return styles[0]
+		}()
+		base := []string{"foo", "bar"}[mi%2]
+		add(base, styles[(mi+r.Intn(len(styles)))%len(styles)])
+		sibs := []string{"has_", "clear_", "set_", "get_", "which_"}
+		k := 1 + r.Intn(2)
+		first := r.Intn(len(sibs))
+		usedGet := false
+		for j := 0; j < k; j++ {
+			sb := sibs[(first+j*2)%len(sibs)]
+			usedGet = usedGet || sb == "get_"
+			add(sb+base, plainStyle)
+		}
+		// base_ has the default JSON name of base: protoc accepts that in proto2 only;
+		// next to a get_ sibling it is the fixed pattern of c41PatternFile, kept out of here
+		if syn == "proto2" && r.Chance(1, 2) && !usedGet {
+			add(base+"_", plainStyle)
+			m.Field[len(m.Field)-1].JsonName = proto.String(base + "U")
+		}
+		if r.Chance(1, 2) {
+			if !hasOneof {
+				add("member", "oneof")
+			}
+			pre := []string{"has_", "clear_", "which_", "set_"}[r.Intn(4)]
+			add(pre+"oo", plainStyle)
+		}
+		fdp.MessageType = append(fdp.MessageType, m)
+	}
+	return fdp
 }
 
 // c41ErrClass keeps the first compiler / runtime message without positions and counters.
